@@ -10,6 +10,11 @@ def plan(ctx):
     exh.append(("nest-lim3", sched.mk(sched.NEST, Tocks=[0, 2], MaxSteps=2, Limit=3, Rets=["T", "N"], EnterOuts=["ok", "r"])))
     exh.append(("always", sched.mk(["a", ["G", "b"]], always={"G": True}, Tocks=[0, 1], MaxSteps=3, Limit=4, Rets=["T", "F"])))
     exh.append(("fault", sched.mk(sched.NEST, Tocks=[0], MaxSteps=2, Limit=3, Faults=["x", "k"], MaxFaults=1, Rets=["T", "F"])))
+    # doers added while running (Doist.extend, a DoDoer's extend): their done flags follow the same rules
+    exh.append(("ext-lim", sched.mk(["a", "b"], extra=["x"], Tocks=[0, 3], MaxSteps=3, Limit=3, Tock=2, MaxOps=1, Rets=["T", "F", "N"],
+                                    ext={"R": [["x"]]})))
+    exh.append(("dd-ext-lim", sched.mk([["G", "a"], "b"], extra=["x"], always={"G": True}, Tocks=[0, 3], MaxSteps=3, Limit=3, Tock=2, MaxOps=1,
+                                       Rets=["T", "N"], ext={"G": [["x"]]})))
     mc = [("nest-mc", sched.mk(sched.NEST, Tocks=[0, 1, 3], MaxSteps=4, Limit=5, Tock=2, Rets=["T", "F", "N"], EnterOuts=["ok", "r"]))]
     sim = [("big", c03.plan(ctx)["sim"][0][1], 500 if q else 20000)]
     return dict(mc=mc, exh=exh, sim=sim)
